@@ -1,5 +1,5 @@
 SPECIFICATION Spec
-CONSTANTS Dim = 4  MaxN = 2  MaxC = 1  InfMode = 1
+CONSTANTS Dim = 4  MaxN = 2  MaxC = 0  InfMode = 1
 INVARIANT NonEmptyIffComplete
 INVARIANT OnlyComplete
 INVARIANT PlainIsOptimum
